@@ -526,3 +526,4 @@ func c12AVLShapes(minNodes, maxNodes int) {
 
 func VF_C12_avl_shapes_quick()    { c12AVLShapes(5, 8) }
 func VF_C12_avl_shapes_thorough() { c12AVLShapes(5, 10) }
+
